@@ -6,6 +6,7 @@ import (
 	"go/constant"
 	"go/token"
 	"go/types"
+	"math"
 	"strings"
 )
 
@@ -15,14 +16,14 @@ type loopCtx struct {
 }
 
 type em struct {
-	F     *fn
-	names map[types.Object]string
-	used  map[string]bool
-	tmp   int
-	pre   []string // hoisted binds for the statement being built
-	loops []loopCtx
+	F        *fn
+	names    map[types.Object]string
+	used     map[string]bool
+	tmp      int
+	pre      []string // hoisted binds for the statement being built
+	loops    []loopCtx
 	inSwitch int
-	want  types.Type // expected type for an untyped nil
+	want     types.Type // expected type for an untyped nil
 }
 
 func isNilIdent(x ast.Expr) bool {
@@ -85,6 +86,12 @@ func constTerm(v constant.Value, t types.Type) string {
 		return "false"
 	case "Go.Bytes":
 		return fmt.Sprintf("(Go.str %q)", constant.StringVal(v))
+	case "Go.F64":
+		f, _ := constant.Float64Val(constant.ToFloat(v))
+		return fmt.Sprintf("(Go.F64.mk (%d : UInt64))", math.Float64bits(f))
+	case "Go.F32":
+		f, _ := constant.Float32Val(constant.ToFloat(v))
+		return fmt.Sprintf("(Go.F32.mk (%d : UInt32))", math.Float32bits(f))
 	}
 	iv := constant.ToInt(v)
 	if iv.Kind() != constant.Int {
@@ -336,6 +343,18 @@ func (e *em) shift(n ast.Node, op token.Token, l string, y ast.Expr) string {
 
 func (e *em) binop(n ast.Node, op token.Token, lt types.Type, l, r string, y ast.Expr) string {
 	llt := leanType(lt)
+	if llt == "Go.F64" {
+		switch op {
+		case token.EQL:
+			return "(Go.F64.feq " + paren(l) + " " + paren(r) + ")"
+		case token.NEQ:
+			return "(Go.F64.fne " + paren(l) + " " + paren(r) + ")"
+		}
+		e.fail(n, "float operation %s", op)
+	}
+	if llt == "Go.F32" {
+		e.fail(n, "float32 operation %s", op)
+	}
 	switch op {
 	case token.ADD:
 		return "(" + l + " + " + r + ")"
@@ -467,6 +486,14 @@ func (e *em) convert(x *ast.CallExpr) string {
 	if isIntLean(lt) && isIntLean(lf) {
 		return "(Go.conv " + paren(arg) + " : " + lt + ")"
 	}
+	switch {
+	case lf == "Go.F32" && lt == "Go.F64":
+		return "(Go.F32.toF64 " + paren(arg) + ")"
+	case lf == "Go.F64" && lt == "Go.F32":
+		return "(Go.F64.toF32 " + paren(arg) + ")"
+	case lf == "UInt64" && lt == "Go.F64":
+		return "(Go.F64.ofUInt64 " + paren(arg) + ")"
+	}
 	e.fail(x, "conversion %s → %s", lf, lt)
 	return ""
 }
@@ -567,6 +594,14 @@ func (e *em) call(x *ast.CallExpr) string {
 				}
 				if p == "errors" && f.Sel.Name == "New" {
 					return "Go.Err.errorsNew"
+				}
+				if p == "math" && mathFuncs[f.Sel.Name] {
+					sig := T.info.Types[x.Fun].Type.(*types.Signature)
+					c := "Go.math." + f.Sel.Name
+					for i, a := range x.Args {
+						c += " " + paren(e.exprAs(a, sig.Params().At(i).Type()))
+					}
+					return "(" + c + ")"
 				}
 			}
 		}
